@@ -343,10 +343,11 @@ def stepGraph (st : DState) (e : Sexp) : Option (DState × String) :=
     | .ok (xs, ex) =>
       match fixExpr st.lang xs.store ex with
       | .error err => pure (st, "E:" ++ showErr err)
-      | .ok (_, ex') =>
-        let g0 := initGraph st.glang cfg
+      | .ok (σf, ex') =>
+        let G := { st.glang with store := σf }
+        let g0 := initGraph G cfg
         let (g1, r) := g0.fresh
-        match addExpr st.glang cfg (.b r) none g1 ex' none false with
+        match addExpr G cfg (.b r) none g1 ex' none false with
         | .error ge => pure (st, "E:" ++ showGErr ge)
         | .ok (g, out) => pure (st, s!"ok root _:{r} out _:{out} " ++ showTriples g.allTriples)
   | .list (.atom "gworkflow" :: .atom bits :: pt :: .list srcs :: apps) => do
